@@ -742,7 +742,7 @@ def replay(chk, path):
         # rule files were written to another scratch dir when the replay was recorded
         args = [("nsa:" + ra) if a.startswith("nsa:") else ("nsb:" + rb) if a.startswith("nsb:") else a for a in args]
         if not any(a.startswith("nsa:") for a in args):
-            args += ["nsa:" + ra, "nsb:" + rb]
+            args += ([] if "-d" in args else EXT_GOOD) + ["nsa:" + ra, "nsb:" + rb]
         opts = [a for a in args if a in ("-s", "-L", "-X", "-m", "-g", "-e", "-c", "-n", "-f")]
         for i, a in enumerate(args):
             if a in ("-t", "-i", "-l"):
